@@ -111,9 +111,9 @@ func (c09) Gen(tier string, seed int64) []fw.Unit {
 		if i < 6 {
 			mode = 0 // full window
 		}
-		nf := 2
+		nf := 3
 		if tier == "thorough" {
-			nf = 4
+			nf = 6
 		}
 		for k := 0; k < nf; k++ {
 			fill := int64((i + k*3) % len(c09Fills))
